@@ -434,7 +434,8 @@ pub fn check_c15(scn: &Scenario) -> Checked {
 // ---------------------------------------------------------------------------------------------
 // C16
 
-const C16_POOL: &[M] = &[M::A0, M::A1, M::B1, M::E0, M::S0, M::S1, M::S2, M::Gm, M::Vu, M::RcU, M::D0];
+// (B0 and GpU8 have a default body and no registered function: "unmocked" must not mean "the default body")
+const C16_POOL: &[M] = &[M::A0, M::A1, M::B1, M::E0, M::S0, M::S1, M::S2, M::Gm, M::Vu, M::RcU, M::D0, M::B0, M::GpU8];
 
 pub fn gen_c16(base_seed: u64, batch: &str, run: u64, rng: &mut Rng) -> Scenario {
     if batch == "executor" {
